@@ -128,7 +128,7 @@ type Exec struct {
 	collect  *[]clauseInst
 	collectFacts *[]*Term // type facts of values read by the spec being evaluated
 	quiet    int
-	siteN    int
+	siteCount map[string]int
 	spawned  []string
 	relyTouched []relyLoc
 	lockChecks bool
